@@ -32,3 +32,7 @@ package metadata
 //@   requires f != nil
 //@   assigns nothing
 //@   ensures result == h2fp(f, 18446744073709551615)
+
+//@ -- C07: every access to the captured frame data should happen under a lock of the record (there is none: the
+//@ -- unsynchronised accesses are recorded as known findings, any new access site is a fresh violation).
+//@ guarded_by [C07:frames-lock] HTTP2FingerprintingFrames.mu Settings,WindowUpdateIncrement,Priorities,Headers
